@@ -5,7 +5,7 @@
                                                           index (0,1,2..; Go: 2,3,4..), CB is a
                                                           callback program [prog], Args one token
      Mgr.timers  sync.Map id -> *Obj (only used by Cancel) [t_reg] bit of the record
-     Mgr.queue   chan *Obj, capacity 999                   [queue] list of ids, [qcap]
+     Mgr.queue   chan *Obj, capacity 999                   [queue] list of ids, [qcap], [recvd]
      Mgr.running                                           [running]
      time.AfterFunc(d, f)                                  token [Pending (now + d)]; the runtime
                                                           may start f only when clock >= deadline
@@ -17,7 +17,11 @@
    action of its program or - when the program is exhausted / panics - returns into [Do].
    Owner steps issued while a callback is running are calls made from inside that callback.
    The owner may call Do on received expiries in any order ([SBegin k]); [SDoNext] is the
-   FIFO choice made by StandardRunService's selector. *)
+   FIFO choice made by StandardRunService's selector.  [queue] lists every expiry that has been
+   sent and not yet passed to Do; [recvd] of them are already in the owner's hands ([SRecv]), the
+   others sit in the channel, whose capacity [qcap] bounds them: [SFireSend] is enabled only
+   while the channel holds fewer than qcap expiries (Go: the send blocks), so a blocked expiry
+   stays [Firing] - it is never dropped - until a receive frees a slot. *)
 From Cell2V Require Import Common.Tac Common.ListX Common.AList.
 
 (* ---- callback programs ---- *)
@@ -59,19 +63,24 @@ Record st := mkS {
   running : bool;
   next : Z;                      (* number of timers created so far = next index *)
   objs : alist timer;
-  queue : list Z;
-  cur : option (Z * prog) }.     (* callback being executed by the owner, remaining program *)
+  queue : list Z;                (* expiries sent and not yet passed to Do: channel + owner's hands *)
+  cur : option (Z * prog);       (* callback being executed by the owner, remaining program *)
+  recvd : nat }.                 (* how many entries of [queue] the owner has already received;
+                                    the channel holds the other length queue - recvd (<= qcap) *)
 
 Definition qcap : Z := 999.
 
-Definition init : st := mkS 0 true 0 [] [] None.
+Definition init : st := mkS 0 true 0 [] [] None 0.
 
 Definition with_objs (s : st) (o : alist timer) : st :=
-  mkS (clock s) (running s) (next s) o (queue s) (cur s).
+  mkS (clock s) (running s) (next s) o (queue s) (cur s) (recvd s).
 Definition with_queue (s : st) (q : list Z) : st :=
-  mkS (clock s) (running s) (next s) (objs s) q (cur s).
+  mkS (clock s) (running s) (next s) (objs s) q (cur s) (recvd s).
 Definition with_cur (s : st) (c : option (Z * prog)) : st :=
-  mkS (clock s) (running s) (next s) (objs s) (queue s) c.
+  mkS (clock s) (running s) (next s) (objs s) (queue s) c (recvd s).
+(* the owner takes k's expiry (out of its hands if it holds any, else straight from the channel) *)
+Definition dequeue (s : st) (k : Z) : st :=
+  mkS (clock s) (running s) (next s) (objs s) (remove_first k (queue s)) (cur s) (pred (recvd s)).
 Definition put (s : st) (k : Z) (t : timer) : st := with_objs s (aset k t (objs s)).
 
 Inductive ev :=
@@ -92,13 +101,14 @@ Inductive step_t :=
 | SCbStep
 | SAdvance (dt : Z)
 | SFireCheck (k : Z)
-| SFireSend (k : Z).
+| SFireSend (k : Z)
+| SRecv.               (* the owner receives one expiry from the channel (frees a slot) *)
 
 (* After (rep = false) / AddTimer (rep = true): allocId, doLater, timers.Store *)
 Definition create (s : st) (d : Z) (rep : bool) (a : Z) (p : prog) : st * list ev :=
   let k := next s in
   let t := mkT d (if rep then d else 0) a p false true (Pending (clock s + d)) in
-  (mkS (clock s) (running s) (k + 1) (aset k t (objs s)) (queue s) (cur s),
+  (mkS (clock s) (running s) (k + 1) (aset k t (objs s)) (queue s) (cur s) (recvd s),
    [ECreate k (clock s) d rep a]).
 
 Definition cancel (s : st) (k : Z) : st * list ev :=
@@ -113,7 +123,7 @@ Definition begin_at (s : st) (k : Z) : st * list ev :=
   | Some _ => (s, [])                      (* the owner is busy inside a callback *)
   | None =>
       if zmem k (queue s) then
-        let s1 := with_queue s (remove_first k (queue s)) in
+        let s1 := dequeue s k in
         match aget k (objs s) with
         | Some t =>
             if t_canceled t then (put s1 k (set_tok Dead t), [])
@@ -162,13 +172,13 @@ Definition fire_check (s : st) (k : Z) : st * list ev :=
   | None => (s, [])
   end.
 
-(* second half: m.queue <- t  (blocks while the channel is full) *)
+(* second half: m.queue <- t  (blocks while the channel holds qcap expiries) *)
 Definition fire_send (s : st) (k : Z) : st * list ev :=
   match aget k (objs s) with
   | Some t =>
       match t_tok t with
       | Firing =>
-          if Z.of_nat (length (queue s)) <? qcap then
+          if Z.of_nat (length (queue s) - recvd s) <? qcap then
             (put (with_queue s (queue s ++ [k])) k (set_tok Queued t), [EQueued k])
           else (s, [])
       | _ => (s, [])
@@ -176,17 +186,24 @@ Definition fire_send (s : st) (k : Z) : st * list ev :=
   | None => (s, [])
   end.
 
+(* t := <-mgr.GetQueue() without calling Do yet *)
+Definition recv (s : st) : st * list ev :=
+  if (recvd s <? length (queue s))%nat
+  then (mkS (clock s) (running s) (next s) (objs s) (queue s) (cur s) (S (recvd s)), [])
+  else (s, []).
+
 Definition step (s : st) (x : step_t) : st * list ev :=
   match x with
   | SCreate d rep a p => create s d rep a p
   | SCancel k => cancel s k
-  | SStop => (mkS (clock s) false (next s) (objs s) (queue s) (cur s), [EStop])
+  | SStop => (mkS (clock s) false (next s) (objs s) (queue s) (cur s) (recvd s), [EStop])
   | SBegin k => begin_at s k
   | SDoNext => match queue s with k :: _ => begin_at s k | [] => (s, []) end
   | SCbStep => cb_step s
-  | SAdvance dt => (mkS (clock s + Z.max 0 dt) (running s) (next s) (objs s) (queue s) (cur s), [])
+  | SAdvance dt => (mkS (clock s + Z.max 0 dt) (running s) (next s) (objs s) (queue s) (cur s) (recvd s), [])
   | SFireCheck k => fire_check s k
   | SFireSend k => fire_send s k
+  | SRecv => recv s
   end.
 
 Fixpoint run_from (s : st) (xs : list step_t) : st * list ev :=
@@ -204,6 +221,8 @@ Definition trace (xs : list step_t) : list ev := snd (run_from init xs).
 (* ---- the harness' logical operations, each a fixed sequence of steps ---- *)
 Inductive op :=
 | OCreate (d : Z) (rep : bool) (a : Z) (p : prog)
+| OCreateN (n d : Z) (rep : bool) (a : Z)   (* n timers with an empty callback program *)
+| OStall (ms : Z)    (* the owner does nothing - in particular does not read the queue - for ms *)
 | OCancel (k : Z)
 | OStop             (* settle, then Mgr.Stop() *)
 | OSettle (g : Z)   (* wait until every armed timer has expired and been queued (+ g ms) *)
@@ -235,15 +254,18 @@ Definition prog_len (s : st) (k : Z) : nat :=
 
 Definition do_steps (s : st) (k : Z) : list step_t := SBegin k :: repeat SCbStep (S (prog_len s k)).
 
-(* time passes until the latest deadline; every armed timer expires and is queued *)
+(* time passes until the latest deadline; every armed timer expires, is sent to the channel as
+   soon as there is room, and the owner receives it (a Settle drains the channel all the time) *)
 Definition settle_steps (s : st) (g : Z) : list step_t :=
   let pk := pending (objs s) in
   SAdvance (fold_right Z.max (clock s) (map snd pk) - clock s)
-    :: flat_map (fun k => [SFireCheck k; SFireSend k]) (map fst pk) ++ [SAdvance g].
+    :: flat_map (fun k => [SFireCheck k; SFireSend k; SRecv]) (map fst pk) ++ [SAdvance g].
 
 Definition compile (s : st) (o : op) : list step_t :=
   match o with
   | OCreate d rep a p => [SCreate d rep a p]
+  | OCreateN n d rep a => repeat (SCreate d rep a []) (Z.to_nat n)
+  | OStall ms => [SAdvance ms]
   | OCancel k => [SCancel k]
   | OStop => settle_steps s 0 ++ [SStop]
   | OSettle g => settle_steps s g
@@ -275,7 +297,7 @@ Fixpoint queued_of (e : list ev) : list Z :=
 
 Definition obs_of (o : op) (tr e : list ev) : obs :=
   match o with
-  | OCreate _ _ _ _ | OCancel _ => BUnit
+  | OCreate _ _ _ _ | OCreateN _ _ _ _ | OStall _ | OCancel _ => BUnit
   | OStop | OSettle _ => BQueued (queued_of e)
   | ODo _ | ODoAll => BRan (cbrecs tr e)
   end.
